@@ -17,6 +17,12 @@ def run(ctx):
            make_jobs(ctx, "smr", big, S.DHP_PROGRAMS[:1] + [S.gen_program(ctx.rng, 24) for _ in range(n)]) + \
            make_jobs(ctx, "smr", big, S.DHP_LONG[:1]) + \
            make_jobs(ctx, "smr", ["dhp_k4", "dhp_k24_init4"], S.DHP_LONG[1:], strat=st_long, extra_of=lambda v: ["--max-steps", "3000000"])
+    # a thread uses a whole extension guard block, frees its guards, detaches; after re-attaching (record and block re-used) it holds more guards than
+    # the block has and releases all but one: the remaining guard must still protect its object (seeded change C02b: unterminated free list of a recycled block)
+    def recycle_prog(keep):
+        prots = ",".join("prot:%d:0" % k for k in range(4, 23)); rels = ",".join("rel:%d" % k for k in range(4, 23) if k != keep)
+        return "galloc:20,gfree,detach,attach,galloc:23,%s,%s,signal,await:2,deref:%d|await:1,swap:0,scan,signal" % (prots, rels, keep)
+    jobs += make_jobs(ctx, "smr", ["dhp_k24_init4"], [recycle_prog(k) for k in (5, 19, 20, 22)], strat=[("pct", 6 if ctx.quick() else 80, 0)])
     vlib.run_jobs(ctx, jobs)
     vlib.validate_histories(ctx, jobs, "SmrSafety", S.CONSTS + ['Clause = "safety"'])
     ctx.impl_runs.append({"driver": "smr", "variants": S.DHP_VARIANTS, "strategies": strategies(ctx)})
